@@ -48,6 +48,10 @@ PROPS = {
     "C18": dict(profiles=[], level="proof", extra=["selfcheck", "autotraits"], props=["C18", "INVlib", "INVarena", "INVnode", "INVtraverse", "INVdebug_pretty_print"]),
 }
 
+# the set of source files is an obligation of every property
+for _pid, _spec in PROPS.items():
+    _spec["props"] = list(_spec.get("props", [_pid])) + ["INVfiles"]
+
 TRUSTED_BASE = [
     "Coq 8.16.1 kernel (coqc) incl. its VM (vm_compute in Examples and computed lemmas); no native_compute",
     "axioms: none (Print Assumptions of every pinned theorem must read 'Closed under the global context')",
